@@ -246,6 +246,20 @@ let () =
         let evs = ref (flatten f0 !race !scripts) in
         let s1 = lookup f0 locals !race !servers !evs in
         let s2 = second (o_fs s1) in
+        (* cross-check of the two models: without local paths / racing writer the lookup is one client of the
+           shared-cache machine (operation programs translated from the source) fed the same events *)
+        let agree =
+          if locals <> [] || !race <> None then true else begin
+            let z0 = z_of_int 0 in
+            let sh = ref (sh_begin (sh_start (sh_init (z_of_int pre_kind) pre_c) (fun _ -> !servers)) z0) in
+            List.iter (fun ev -> sh := sh_net !sh z0 ev) !evs;
+            let ((c1, (a1, b1)), u1) = sh_result !sh z0 and ((c2, (a2, b2)), u2) = o_result s1 in
+            let su = function Some u -> hex_of u | None -> "N" in
+            let sc = function Some (File b) -> "F" ^ hex_of b | Some Dir -> "D" | None -> "-" in
+            int_of_z c1 = int_of_z c2 && string_of_z a1 = string_of_z a2 && string_of_z b1 = string_of_z b2 && su u1 = su u2
+            && sc (sh_cache !sh) = sc (o_cache s1) && int_of_z (sh_ntmp !sh (z_of_int 1)) = List.length (o_tmp s1)
+          end in
+        if not agree then print_endline "MODELS-DISAGREE (C16/Model.v vs C16/Shared.v on a single-client case)" else
         let out = Buffer.create 256 in
         Buffer.add_string out (Printf.sprintf "A{%s}B{%s}" (block s1 true true) (block s2 true true));
         if drop <> "-" then begin
